@@ -6,6 +6,8 @@ operation lines and compares the complete parent/children state after every oper
 oracle walks every unit ever created and checks the property as stated.
 """
 import copy
+import itertools
+from collections import abc as _abc
 
 ID = "C13"
 LEAN_MODULES = ["PyrollProps.C13"]
@@ -17,14 +19,112 @@ RULE = ("random edit histories over a pool of real units (plain Unit, TwoRollPas
         "or that lie in the range which the same item/slice assignment replaces (valid stream: in-place reversal, "
         "rotation, permutation, l[i] = l[i], extended slices l[i:j:k] = ... with matching sizes), the rest may insert "
         "units that are still listed elsewhere (F10 stream). After every op: parent/children/prev/next of every unit "
-        "and prev_of/next_of for every unit and type are compared with the model and checked by the oracle.")
+        "and prev_of/next_of for every unit and type are compared with the model and checked by the oracle. "
+        "Every iterable argument (extend, +=, slice / extended-slice assignment; construction: Sequence forms only) is "
+        "handed over in one of several forms: list, tuple, Sequence ABC instance, __iter__-only and __getitem__-only "
+        "objects (re-iterable), generator, iter(), map, reversed, itertools.chain (one-shot) and - for re-insertions - a "
+        "generator that reads the edited list lazily; after every op the content of the edited list is compared with "
+        "what the same op does to a plain python list.")
 ASSUMPTIONS = [
     "CPython list primitive methods, weakref and copy.deepcopy memo semantics are modelled, not verified",
+    "the iterator protocol is modelled by Tree.Src (one-shot iterables yield their items during the first iteration only)",
     "the model is tied to the code by sampled differential runs (state compared after every op)",
 ]
 
 KINDS = {0: "Unit", 1: "TwoRollPass", 2: "Transport", 3: "PassSequence"}
 OVERLAP_P = 0.4       # share of item/slice assignments that deliberately re-insert units of the replaced range
+
+# ---- how an iterable argument is handed over ---------------------------------------------------
+# The property quantifies over the edits, not over the container the new units arrive in: `extend`, `+=` and slice
+# assignment take any iterable (`Iterable[Unit]` in the signatures; python list semantics), the constructor a Sequence.
+REITERABLE = ("list", "tuple", "seqabc", "iterable", "getitem")
+ONE_SHOT = ("gen", "iter", "map", "rev", "chain")      # yield their items during the FIRST iteration only
+LIVE = "live"           # one-shot AND lazy: reads the edited list itself, position by position, when it is iterated
+FORMS = REITERABLE + ONE_SHOT + (LIVE,)
+SEQUENCE_FORMS = ("list", "tuple", "seqabc")            # what `PassSequence(units: Sequence[Unit])` is promised
+FORM_P = 0.5          # share of iterable arguments that are not handed over as a plain list
+ARG_AT = {"seq": 2, "extend": 2, "iadd": 2, "setslice": 4, "setsliceext": 5}    # position of the unit ids in the op tuple
+
+
+def form_of(op):
+    """the form tag of an op with an iterable argument (optional last element of the tuple; default: a list)"""
+    k = ARG_AT.get(op[0])
+    if k is None or len(op) <= k + 1:
+        return "list"
+    return op[k + 1]
+
+
+def with_form(op, form):
+    k = ARG_AT[op[0]]
+    return tuple(op[:k + 1]) + (() if form == "list" else (form,))
+
+
+def form_class(form):
+    return ("" if form == "list" else "-oneshot" if form in ONE_SHOT else "-" + form)
+
+
+class _SeqArg(_abc.Sequence):
+    def __init__(self, items):
+        self._items = list(items)
+
+    def __getitem__(self, i):
+        return self._items[i]
+
+    def __len__(self):
+        return len(self._items)
+
+
+class _IterArg:
+    """re-iterable, but neither a Sequence nor sized: every iter() starts afresh"""
+    def __init__(self, items):
+        self._items = list(items)
+
+    def __iter__(self):
+        return iter(list(self._items))
+
+
+class _GetItemArg:
+    """iterable only through the legacy protocol (__getitem__ with 0, 1, ... until IndexError)"""
+    def __init__(self, items):
+        self._items = list(items)
+
+    def __getitem__(self, i):
+        if not isinstance(i, int) or i < 0:
+            raise TypeError("legacy iteration only")
+        return self._items[i]
+
+
+def make_arg(form, objs, target=None):
+    """the units `objs` handed over in the given form; `target` is the list being edited (form 'live')"""
+    objs = list(objs)
+    if form == "list":
+        return objs
+    if form == "tuple":
+        return tuple(objs)
+    if form == "seqabc":
+        return _SeqArg(objs)
+    if form == "iterable":
+        return _IterArg(objs)
+    if form == "getitem":
+        return _GetItemArg(objs)
+    if form == "gen":
+        return (u for u in objs)
+    if form == "iter":
+        return iter(objs)
+    if form == "map":
+        return map(lambda u: u, objs)
+    if form == "rev":
+        return reversed(objs[::-1])
+    if form == "chain":
+        return itertools.chain(objs[:1], objs[1:])
+    if form == LIVE:
+        # l[i:j] = (l[p] for p in ...): the positions are fixed now, the list is read when the generator runs.
+        # list semantics: the right-hand side is evaluated completely before the list changes.
+        # Units that are not in the list at this moment are yielded directly.  If the list has been cut down before
+        # the generator runs, `target[p]` raises IndexError exactly like the python expression would.
+        pos = [next((p for p, x in enumerate(target) if x is u), None) for u in objs]
+        return (u if p is None else target[p] for u, p in zip(objs, pos))
+    raise ValueError(form)
 
 
 class _Budget(Exception):
@@ -95,6 +195,7 @@ class Real:
                          nominal_radius=0.1)
         self.units = []
         self.ids = {}
+        self.content = None
 
     def reg(self, u):
         self.ids[id(u)] = len(self.units)
@@ -125,7 +226,88 @@ class Real:
                 self.reg_tree(c)
         return i
 
+    def plain_list_result(self, op):
+        """(edited sequence object, what its unit list has to contain after `op`) - computed in the state BEFORE the
+        op by doing the same edit on a plain python list holding the same objects (a failing edit changes nothing).
+        None for ops that edit no existing list."""
+        Unit, PassSequence, TwoRollPass, Transport = self.cls
+        n, U = op[0], self.units
+        if n in ("unit", "seq", "deepcopy"):
+            return None
+        s = U[op[1]]
+        before = list(s._subunits)
+        pl = list(before)
+        try:
+            if n == "append":
+                pl.append(U[op[2]])
+            elif n == "prepend":
+                pl.insert(0, U[op[2]])
+            elif n == "insert":
+                pl.insert(op[2], U[op[3]])
+            elif n in ("extend", "iadd"):
+                pl.extend([U[i] for i in op[2]])
+            elif n == "setitem":
+                pl[op[2]] = U[op[3]]
+            elif n == "setslice":
+                pl[op[2]:op[3]] = [U[i] for i in op[4]]
+            elif n == "setsliceext":
+                pl[op[2]:op[3]:op[4]] = [U[i] for i in op[5]]
+            elif n == "delsliceext":
+                del pl[op[2]:op[3]:op[4]]
+            elif n in ("delitem", "drop"):
+                del pl[op[2]]
+            elif n == "delslice":
+                del pl[op[2]:op[3]]
+            elif n == "pop":
+                pl.pop(op[2])
+            elif n == "remove":
+                pl.remove(U[op[2]])
+            elif n == "clear":
+                pl.clear()
+            elif n == "flatten":
+                # one level: a nested sequence is replaced by its units (and emptied, so a second listing of the
+                # same nested sequence contributes nothing)
+                pl, done = [], set()
+                for item in before:
+                    if isinstance(item, PassSequence):
+                        if id(item) not in done:
+                            pl.extend(list(item._subunits))
+                            done.add(id(item))
+                    else:
+                        pl.append(item)
+            elif n == "listcopy":
+                pass
+            else:
+                return None
+        except (IndexError, ValueError):
+            pl = before
+        return s, pl
+
+    def arg(self, op, target=None):
+        """the iterable argument of `op` in the form the op asks for"""
+        return make_arg(form_of(op), [self.units[i] for i in op[ARG_AT[op[0]]]], target)
+
     def apply(self, op):
+        """execute one op; afterwards `self.content` holds the problem (or None) of the clause 'the edited unit list
+        contains what the same edit gives on a plain list'"""
+        self.content = None
+        want = self.plain_list_result(op)
+        st = self._apply(op)
+        if op[0] == "seq" and st.startswith("u"):
+            want = (self.units[int(st[1:])], [self.units[i] for i in op[2]])
+        if want is not None:
+            s, pl = want
+            got = list(s._subunits)
+            if [id(x) for x in got] != [id(x) for x in pl]:
+                def L(xs):
+                    return "[" + ", ".join(f"u{self.uid(x)}" for x in xs) + "]"
+                self.content = (f"content: after {op[0]} ({form_of(op)} argument) seq u{self.uid(s)} lists {L(got)}, "
+                                f"the same edit of a plain list gives {L(pl)}" if op[0] in ARG_AT else
+                                f"content: after {op[0]} seq u{self.uid(s)} lists {L(got)}, "
+                                f"the same edit of a plain list gives {L(pl)}")
+        return st
+
+    def _apply(self, op):
         Unit, PassSequence, TwoRollPass, Transport = self.cls
         name = op[0]
         try:
@@ -143,7 +325,7 @@ class Real:
                     u = (_Pipe if (lab + len(self.units)) % 3 == 0 else Transport)(label=f"L{lab}")
                 return f"u{self.reg(u)}"
             if name == "seq":
-                s = PassSequence([self.units[i] for i in op[2]], label=f"L{op[1]}")
+                s = PassSequence(self.arg(op), label=f"L{op[1]}")
                 return f"u{self.reg(s)}"
             if name == "append":
                 self.units[op[1]].append(self.units[op[2]])
@@ -152,16 +334,16 @@ class Real:
             elif name == "insert":
                 self.lst(op[1]).insert(op[2], self.units[op[3]])
             elif name == "extend":
-                self.lst(op[1]).extend([self.units[i] for i in op[2]])
+                self.lst(op[1]).extend(self.arg(op))
             elif name == "iadd":
                 u = self.units[op[1]]
-                u._subunits += [self.units[i] for i in op[2]]
+                u._subunits += self.arg(op)
             elif name == "setitem":
                 self.lst(op[1])[op[2]] = self.units[op[3]]
             elif name == "setslice":
-                self.lst(op[1])[op[2]:op[3]] = [self.units[i] for i in op[4]]
+                self.lst(op[1])[op[2]:op[3]] = self.arg(op, self.lst(op[1]))
             elif name == "setsliceext":
-                self.lst(op[1])[op[2]:op[3]:op[4]] = [self.units[i] for i in op[5]]
+                self.lst(op[1])[op[2]:op[3]:op[4]] = self.arg(op, self.lst(op[1]))
             elif name == "delsliceext":
                 del self.lst(op[1])[op[2]:op[3]:op[4]]
             elif name == "delitem":
@@ -344,10 +526,22 @@ class Real:
                     probs.append(f"u{self.uid(u)} names an unknown parent")
                 elif not any(x is u for x in p._subunits):
                     probs.append(f"removed/unlisted unit u{self.uid(u)} still names parent u{self.uid(p)}")
+        # the edit itself: extend / += / slice assignment / ... store exactly what the same edit of a plain list
+        # stores, whatever container the new units arrive in (set by `apply` for the op executed last)
+        if self.content:
+            probs.append(self.content)
         return probs
 
 
 def to_line(op):
+    """the op as a line of the model driver's protocol (also the replay format); an iterable argument that is not
+    handed over as a list carries its form as a last token `@<form>`"""
+    line = _to_line(op)
+    f = form_of(op)
+    return line if f == "list" else f"{line} @{f}"
+
+
+def _to_line(op):
     def L(us):
         return ",".join(map(str, us)) if us else "-"
 
@@ -475,7 +669,7 @@ def gen_history(rng, n_ops, fresh_only):
             name = rng.choice(["append", "prepend", "insert", "extend", "iadd", "setitem", "setslice", "delitem",
                                "delslice", "pop", "remove", "clear", "drop", "flatten", "listcopy", "deepcopy",
                                "append", "insert", "setitem", "pop", "remove", "delitem",
-                               "setslice", "setsliceext", "setsliceext", "delsliceext"])
+                               "setslice", "setsliceext", "setsliceext", "delsliceext", "extend", "iadd"])
             cur_ids = lambda sl: [real.uid(x) for x in real.lst(s)[sl]]
 
             def reinsert(cur, same_len):
@@ -575,6 +769,16 @@ def gen_history(rng, n_ops, fresh_only):
                 op = (name, u)
             else:
                 op = (name, s)
+        if op[0] in ARG_AT:
+            us = op[ARG_AT[op[0]]]
+            tgt = [] if op[0] == "seq" else [real.uid(x) for x in real.lst(op[1])]
+            if (op[0] in ("setslice", "setsliceext") and any(u in tgt for u in us)
+                    and all(tgt.count(u) <= 1 for u in us) and rng.random() < 0.5):
+                # re-insertion of units of the edited list: the right-hand side may read that list lazily
+                op = with_form(op, LIVE)
+            elif rng.random() < FORM_P:
+                # one-shot iterables twice as often as each re-iterable form
+                op = with_form(op, rng.choice(SEQUENCE_FORMS if op[0] == "seq" else REITERABLE + ONE_SHOT + ONE_SHOT))
         ops.append(op)
         real.apply(op)
     return ops, nonfresh
@@ -652,9 +856,12 @@ def violation_key(small, probs):
     for op in small[:-1]:
         real.apply(op)
     last = small[-1]
+    form = form_class(form_of(last))        # after shrinking: '' unless the problem needs that form of argument
     if probs and probs[0].split(":")[0] in ("prev_of", "next_of"):
-        return "navof-after-" + last[0]
-    return "inv-after-" + last[0] + ("-overlap" if op_overlaps(real, last) else "")
+        return "navof-after-" + last[0] + form
+    if probs and all(p.startswith("content:") for p in probs):
+        return "content-after-" + last[0] + form
+    return "inv-after-" + last[0] + ("-overlap" if op_overlaps(real, last) else "") + form
 
 
 def first_problem(ops):
@@ -680,9 +887,23 @@ def shrink(ops, upto):
                 continue
             cand = ops[:i] + ops[i + 1:]
             idx, probs = first_problem(cand)
-            if idx is not None:
+            # never shrink INTO the known finding: dropping the op that took a unit out of a list would turn a
+            # later insertion of that unit into an F10 insertion (another problem than the one being reported)
+            if idx is not None and not history_nonfresh(cand, idx):
                 ops = cand[:idx + 1]
                 changed = True
+                break
+    # hand every iterable argument over as a plain list where the problem does not need anything else
+    # (a one-shot form is replaced by the plain generator where that keeps the problem)
+    for i, op in enumerate(ops):
+        f = form_of(op)
+        for simpler in ("list", "gen"):
+            if f == simpler or (simpler == "gen" and f not in ONE_SHOT):
+                continue
+            cand = ops[:i] + [with_form(op, simpler)] + ops[i + 1:]
+            idx, probs = first_problem(cand)
+            if idx is not None and idx == len(cand) - 1:
+                ops = cand
                 break
     return ops
 
@@ -716,6 +937,15 @@ CORPUS = [
     # navigation by type: own type, base type, foreign type, first/last, nested sequence
     [("unit", 1, 0), ("unit", 2, 1), ("unit", 0, 2), ("unit", 1, 3), ("unit", 2, 0), ("seq", 1, [2, 3]),
      ("seq", 0, [0, 1, 5, 4]), ("prepend", 6, 2)],
+    # the form of the iterable argument: one-shot iterables for extend / += / slice assignment, a Sequence that is not
+    # a list for the constructor, a generator reading the edited list lazily (l[::-1] = (l[p] for p in ...))
+    [("unit", 0, 0), ("unit", 1, 1), ("unit", 2, 2), ("unit", 0, 3), ("seq", 0, [0], "tuple"), ("extend", 4, [1, 2], "gen"),
+     ("iadd", 4, [3], "iter"), ("clear", 4), ("iadd", 4, [2, 0], "map"), ("extend", 4, [], "gen"),
+     ("extend", 4, [1, 3], "iterable")],
+    [("unit", 1, 0), ("unit", 2, 1), ("unit", 0, 2), ("unit", 2, 3), ("seq", 0, [0, 1, 2], "seqabc"),
+     ("setslice", 4, 1, 2, [3], "rev"), ("setsliceext", 4, None, None, -1, [0, 3, 2], "live"),
+     ("setslice", 4, None, None, [0, 3, 2], "live"), ("setsliceext", 4, None, None, 2, [0, 2], "chain"),
+     ("setslice", 4, 0, 0, [1], "getitem"), ("setsliceext", 4, None, None, 2, [3], "gen")],
     # F10 (known finding): a unit adopted while it is still listed elsewhere
     [("unit", 0, 0), ("seq", 0, [0]), ("seq", 1, [0])],
     # F10: l[0], l[1] = l[1], l[0] - the first item assignment lists u1 twice, the second one orphans it
@@ -774,6 +1004,8 @@ def run(ctx):
         ctx.case(canon, nontriv)
         for o in ops:
             ctx.count("op:" + o[0])
+            if o[0] in ARG_AT:
+                ctx.count(f"arg-form:{o[0]}:{form_of(o)}" + ("" if o[ARG_AT[o[0]]] else ":empty"))
         ctx.count("stream:" + ("corpus" if fresh_only is None else "fresh" if fresh_only else "any"))
         for (st, _, _) in obs:
             if st in ("IndexError", "ValueError"):
@@ -831,6 +1063,11 @@ def replay(ctx, data):
 
 def parse_line(line):
     t = line.split()
+    if t and t[-1].startswith("@"):
+        op = parse_line(" ".join(t[:-1]))
+        if op[0] not in ARG_AT or t[-1][1:] not in FORMS:
+            raise ValueError(f"bad form token in replay line: {line}")
+        return with_form(op, t[-1][1:])
 
     def L(s):
         return [] if s == "-" else [int(x) for x in s.split(",")]
